@@ -8,7 +8,7 @@ TRUSTED = ['IndexMap keeps insertion order (modelled as an association list)']
 
 def run(ctx):
     rnd = ctx['rnd']; n = 250 if ctx['tier'] == 'quick' else 10000
-    cases = []; meta = []
+    cases = []; meta = []; filed = []
     for i in range(n):
         cfg = gen.pipeline_cfg(rnd, allow_group=False)
         g = rnd.choice(gen.GROUPS + [True])
@@ -24,6 +24,15 @@ def run(ctx):
         else: uc = clone_cfg(cfg, select=['.=__v', '%s=__gk' % g])
         cases.append(mkcase('U%d' % i, uc, data))
         meta.append((gc, uc, g, data, direct_ok))
+        # the same values delivered as 1..3 FILE arguments (cut between values): one collection at the end of the last file
+        if i % 3 == 0:
+            k = rnd.randint(1, 3); cuts = sorted(rnd.randint(0, len(vals)) for _ in range(k - 1))
+            parts = [vals[a:b] for a, b in zip([0] + cuts, cuts + [len(vals)])]
+            pdata = [gen.stream(p, rnd) for p in parts]
+            whole = b'\n'.join(pdata)
+            cases.append(mkcase('W%d' % i, gc, whole))
+            cases.append({'id': 'F%d' % i, 'cfg': gc, 'files': True, 'inputs': [{'data': d, 'name': 'g%d_%d.json' % (i, t)} for t, d in enumerate(pdata)]})
+            filed.append(i)
     impl, model, mism = common.correspond(cases)
     violations = []; checked = 0
     for i, (gc, uc, g, data, direct_ok) in enumerate(meta):
@@ -54,8 +63,16 @@ def run(ctx):
             exp = ('obj', [(k, l) for k, l in groups])
         if got != exp:
             violations.append(viol(gc, data, 'the collection holds exactly the rows the ungrouped pipeline prints: distinct string keys in first-seen order, rows in arrival order', json.dumps(got)[:600], json.dumps(exp)[:600]))
-    cov = {'evaluations': len(cases), 'distinct_nontrivial': common.nontrivial_count(cases, impl),
-           'rule': 'pipelines (select, filter, unique, sort, skip/take, split) ending in --group-by <expr> or --merge over 0..40 records with keys over strings incl. "" and non-ASCII, numbers, null, absent; each paired with the ungrouped pipeline exposing the key',
+    for i in filed:
+        W = impl['W%d' % i]; F = impl['F%d' % i]; gc = meta[i][0]; checked += 1
+        if (lib.kind(W), W['stdout']) != (lib.kind(F), F['stdout']):
+            c = [x for x in cases if x['id'] == 'F%d' % i][0]
+            violations.append({'property': 'C09', 'relation': 'the same values given as file arguments produce the same single collection as on standard input',
+                               'args': lib.cfg_args(gc), 'files': True, 'file_hex': [x['data'].hex() for x in c['inputs']],
+                               'stdin_hex': b'\n'.join(x['data'] for x in c['inputs']).hex(),
+                               'observed': F['result'] + ' ' + F['stdout'].decode('utf8', 'replace')[:400], 'expected': W['result'] + ' ' + W['stdout'].decode('utf8', 'replace')[:400]})
+    cov = {'evaluations': len(cases), 'file_argument_runs': len(filed), 'distinct_nontrivial': common.nontrivial_count(cases, impl),
+           'rule': 'pipelines (select, filter, unique, sort, skip/take, split) ending in --group-by <expr> or --merge over 0..40 records with keys over strings incl. "" and non-ASCII, numbers, null, absent; also delivered as 1..3 file arguments; each paired with the ungrouped pipeline exposing the key',
            'samples': [common.describe(c) for c in cases[:2]],
            'traces_validated_against_impl': len(cases) - len(mism), 'model_mismatches': len(mism), 'direct_relations_checked': checked}
     broken = ['correspondence: model and implementation differ on %d cases, e.g. %s' % (len(mism), json.dumps(mism[0])[:1500])] if mism else []
@@ -66,5 +83,6 @@ def viol(cfg, data, rel, obs, exp):
 
 def replay(ctx, r):
     c = {'id': 'r', 'cfg': lib.new_cfg(), 'args': r['args'], 'inputs': [{'data': bytes.fromhex(r['stdin_hex'])}]}
+    if r.get('files'): c = {'id': 'r', 'cfg': lib.new_cfg(), 'args': r['args'], 'files': True, 'inputs': [{'data': bytes.fromhex(h), 'name': 'r%d.json' % t} for t, h in enumerate(r['file_hex'])]}
     res = lib.run_harness([c])['r']
     return {'observed': res['stdout'].decode('utf8', 'replace'), 'expected': r.get('expected'), 'fails': True}
